@@ -271,6 +271,18 @@ func (q *queryChecker) Check(qu Query) {
 			q.cls["hit:request"]++
 		}
 		res, err := k.Request(ctx, &types.QueryRequestRequest{RequestId: unhx(qu.ID)})
+		if len(unhx(qu.ID)) != types.RequestIDLen {
+			// not an identifier: both interfaces must answer "nothing" (an error or an empty record)
+			q.cls["malformed_request_id"]++
+			_, lerr := q.legacy(types.QueryRequest, types.QueryRequestParams{RequestID: unhx(qu.ID)})
+			if err == nil && !res.Request.Empty() {
+				q.fail(qu.Kind, "gRPC request for the malformed id %s returned a record", qu.ID)
+			}
+			if (err == nil) != (lerr == nil) {
+				q.fail(qu.Kind, "malformed request id %s: gRPC err=%v, legacy err=%v", qu.ID, err, lerr)
+			}
+			return
+		}
 		if err != nil {
 			q.fail(qu.Kind, "gRPC request %s: %v", qu.ID, err)
 			return
@@ -407,6 +419,17 @@ func (q *queryChecker) Check(qu Query) {
 	case "response":
 		want, has := s.Resps[qu.ID]
 		res, err := k.Response(ctx, &types.QueryResponseRequest{RequestId: unhx(qu.ID)})
+		if len(unhx(qu.ID)) != types.RequestIDLen {
+			q.cls["malformed_request_id"]++
+			_, lerr := q.legacy(types.QueryResponse, types.QueryResponseParams{RequestID: unhx(qu.ID)})
+			if err == nil && !res.Response.Empty() {
+				q.fail(qu.Kind, "gRPC response for the malformed id %s returned a record", qu.ID)
+			}
+			if (err == nil) != (lerr == nil) {
+				q.fail(qu.Kind, "malformed request id %s: gRPC err=%v, legacy err=%v", qu.ID, err, lerr)
+			}
+			return
+		}
 		if err != nil {
 			q.fail(qu.Kind, "gRPC response %s: %v", qu.ID, err)
 			return
@@ -558,6 +581,10 @@ func GenQueries(t *rapid.T, g *GenState) []Query {
 				q.ID = pick(t, "q_ctx", ctxs)
 			case "request", "response":
 				q.ID = pick(t, "q_req", reqs)
+				if pct(t, "q_malformed_id", 4) {
+					// an existing identifier cut short or extended by a byte is not an identifier
+					q.ID = pick(t, "q_malformed", []string{q.ID[:len(q.ID)-2], q.ID + "00", q.ID[:80]})
+				}
 			case "requests_by_ctx", "responses":
 				q.ID = pick(t, "q_ctx", ctxs)
 				if rc, ok := s.Ctxs[q.ID]; ok {
